@@ -95,6 +95,8 @@ where
         if let Some(in_memory) = self.try_get() {
             return in_memory;
         }
+        #[cfg(fontc_verif)]
+        fontdrasil::verif::note("miss", std::any::type_name::<T>(), &self.id);
 
         // it's *not* in memory but perhaps it's written down?
         if self.persistent_storage.active()
@@ -102,6 +104,8 @@ where
         {
             let restored = T::read(&mut reader);
             *self.value.write() = Some(Arc::from(restored));
+            #[cfg(fontc_verif)]
+            fontdrasil::verif::note("restored", std::any::type_name::<T>(), &self.id);
         }
 
         // if we still don't have an answer just give up
@@ -111,6 +115,8 @@ where
 
     /// Read an item that might not exist
     pub fn try_get(&self) -> Option<Arc<T>> {
+        #[cfg(fontc_verif)]
+        fontdrasil::verif::access("read", std::any::type_name::<T>(), Some(&self.id));
         self.acl.assert_read_access(&self.id);
         self.value.read().as_ref().cloned()
     }
@@ -126,6 +132,8 @@ where
     ///
     /// Change logging and dependent task execution will only fire if the value changed.
     pub fn set(&self, value: T) {
+        #[cfg(fontc_verif)]
+        fontdrasil::verif::access("write", std::any::type_name::<T>(), Some(&self.id));
         self.acl.assert_write_access(&self.id);
 
         // nop?
@@ -136,6 +144,8 @@ where
             .map(|arc| **arc == value)
             .unwrap_or(false)
         {
+            #[cfg(fontc_verif)]
+            fontdrasil::verif::note("nop-write", std::any::type_name::<T>(), &self.id);
             return;
         }
 
@@ -143,8 +153,18 @@ where
             let mut writer = self.persistent_storage.writer(&self.id);
             value.write(&mut writer);
         }
+        #[cfg(fontc_verif)]
+        verif_readback(&*self.persistent_storage, &self.id, &value, Some(T::eq));
+        #[cfg(fontc_verif)]
+        if fontdrasil::verif::evict(std::any::type_name::<T>(), &self.id) {
+            *self.value.write() = None;
+            fontdrasil::verif::wrote(std::any::type_name::<T>(), &self.id);
+            return;
+        }
 
         *self.value.write() = Some(Arc::from(value));
+        #[cfg(fontc_verif)]
+        fontdrasil::verif::wrote(std::any::type_name::<T>(), &self.id);
     }
 }
 
@@ -187,12 +207,16 @@ where
 
     /// Read an item that might not exist
     pub fn try_get(&self, id: &I) -> Option<Arc<T>> {
+        #[cfg(fontc_verif)]
+        fontdrasil::verif::access("read", std::any::type_name::<T>(), Some(id));
         self.acl.assert_read_access(id);
         self.value.read().get(id).cloned()
     }
 
     /// A copy of all the entries in the map. Values are arc'd so they are cheap, though not free, copies.
     pub fn all(&self) -> Vec<(I, Arc<T>)> {
+        #[cfg(fontc_verif)]
+        fontdrasil::verif::access("scan", std::any::type_name::<T>(), None);
         self.value
             .read()
             .iter()
@@ -212,6 +236,8 @@ where
         if let Some(in_memory) = self.try_get(id) {
             return in_memory;
         }
+        #[cfg(fontc_verif)]
+        fontdrasil::verif::note("miss", std::any::type_name::<T>(), id);
 
         // it's *not* in memory but perhaps it's written down?
         if self.persistent_storage.active()
@@ -219,6 +245,8 @@ where
         {
             let restored = T::read(&mut reader);
             self.value.write().insert(id.clone(), Arc::from(restored));
+            #[cfg(fontc_verif)]
+            fontdrasil::verif::note("restored", std::any::type_name::<T>(), id);
         }
 
         // if we still don't have an answer just give up
@@ -235,14 +263,28 @@ where
 {
     pub fn set_unconditionally(&self, value: T) {
         let key = value.id();
+        #[cfg(fontc_verif)]
+        fontdrasil::verif::access("write", std::any::type_name::<T>(), Some(&key));
         self.acl.assert_write_access(&key);
 
         if self.persistent_storage.active() {
             let mut writer = self.persistent_storage.writer(&key);
             value.write(&mut writer);
         }
+        #[cfg(fontc_verif)]
+        verif_readback(&*self.persistent_storage, &key, &value, None);
+        #[cfg(fontc_verif)]
+        if fontdrasil::verif::evict(std::any::type_name::<T>(), &key) {
+            self.value.write().remove(&key);
+            fontdrasil::verif::wrote(std::any::type_name::<T>(), &key);
+            return;
+        }
+        #[cfg(fontc_verif)]
+        let hook_key = key.clone();
 
         self.value.write().insert(key, Arc::from(value));
+        #[cfg(fontc_verif)]
+        fontdrasil::verif::wrote(std::any::type_name::<T>(), &hook_key);
     }
 }
 
@@ -264,11 +306,48 @@ where
             .map(|arc| **arc == value)
             .unwrap_or(false)
         {
+            #[cfg(fontc_verif)]
+            fontdrasil::verif::note("nop-write", std::any::type_name::<T>(), &key);
             return;
         }
 
+        #[cfg(fontc_verif)]
+        let hook_key = key.clone();
         self.set_unconditionally(value);
+        // set_unconditionally does not know T: PartialEq so it falls to us to compare
+        #[cfg(fontc_verif)]
+        if let Some(in_memory) = self.value.read().get(&hook_key).cloned() {
+            verif_readback(
+                &*self.persistent_storage,
+                &hook_key,
+                &*in_memory,
+                Some(T::eq),
+            );
+        }
     }
+}
+
+/// If the simulator asks for it, read what was just persisted for `id` back through
+/// the real reader and report whether it equals `value`.
+///
+/// Without `eq` (or when `value` is not equal to itself, e.g. holds a NaN) all the
+/// report says is that reading back did not blow up.
+#[cfg(fontc_verif)]
+fn verif_readback<I, T, P>(storage: &P, id: &I, value: &T, eq: Option<fn(&T, &T) -> bool>)
+where
+    I: Debug,
+    T: Persistable,
+    P: PersistentStorage<I>,
+{
+    if !storage.active() || !fontdrasil::verif::readback_enabled() {
+        return;
+    }
+    let Some(mut reader) = storage.reader(id) else {
+        return;
+    };
+    let restored = T::read(&mut reader);
+    let equal = eq.and_then(|eq| eq(value, value).then(|| eq(&restored, value)));
+    fontdrasil::verif::readback(std::any::type_name::<T>(), id, equal);
 }
 
 pub trait IdAware<I> {
@@ -376,6 +455,13 @@ impl PersistentStorage<WorkId> for IrPersistentStorage {
         let raw_file = File::open(file.clone())
             .map_err(|e| panic!("Unable to write {file:?} {e}"))
             .unwrap();
+        #[cfg(fontc_verif)]
+        return Some(fontdrasil::verif::wrap_reader(
+            id,
+            &file,
+            Box::from(BufReader::new(raw_file)),
+        ));
+        #[cfg(not(fontc_verif))]
         Some(Box::from(BufReader::new(raw_file)))
     }
 
@@ -387,6 +473,9 @@ impl PersistentStorage<WorkId> for IrPersistentStorage {
         let raw_file = File::create(file.clone())
             .map_err(|e| panic!("Unable to write {file:?} {e}"))
             .unwrap();
+        #[cfg(fontc_verif)]
+        return fontdrasil::verif::wrap_writer(id, &file, Box::from(BufWriter::new(raw_file)));
+        #[cfg(not(fontc_verif))]
         Box::from(BufWriter::new(raw_file))
     }
 }
